@@ -1,7 +1,7 @@
 """Rules about name::Name relations shared by C06 (wrong-zone test), C07 (zone selection) and C16 (name algebra)."""
 import re
 
-from qv.facts import callee_name
+from qv.facts import callee_name, is_place
 from qv import paths
 
 
@@ -94,3 +94,42 @@ def check_longest_match(R, F, rule='longest-match'):
     R.require(not late, rule, lic.gpath + '|deeper-first', lic.where(gets[0]), 'iterative walk: the entry of the node at hand is examined before every descent',
               'the walk descends into a child (%s) before the entry of the node at hand was examined: the entry of the starting node (the class root) is never a candidate' % [lic.where(g) for g in late])
     R.require(len(gets) == 1 and gets[0] in lic.reachable(lic.succs()[gets[0]]), rule, lic.gpath + '|descends-one-label', lic.where(gets[0]), 'one child lookup per round of the walk', 'the iterative walk does not advance by exactly one child lookup per round')
+
+
+NAME_OCTET_SOURCES = ('name::Name::wire_repr', 'name::Name::wire_repr_from', 'name::Name::wire_repr_to', 'name::label::Label::octets')
+
+
+def check_raw_name_comparisons(R, F, rule='name-equality'):
+    """Domain names are compared as names (label by label, ASCII case folded -- Name / Label equality, eq_or_subdomain_of),
+    never as raw octets: outside the name module no equality / ordering / prefix / suffix test has an operand that derives
+    from a name's wire representation.  A byte comparison is case-sensitive (and, on a tail of the representation, not
+    label-aligned), so `NS1.Sub.Example.` would not be recognised as a name under `sub.example.`."""
+    from qv.flow import slice_of
+    cmp_rx = re.compile(r'(PartialEq<[^>]*>( for [^>]*)?>::(eq|ne)$|::cmp::Ord>::cmp$|PartialOrd<[^>]*>( for [^>]*)?>::(partial_cmp|lt|le|gt|ge)$|<impl \[T\]>::(starts_with|ends_with|strip_prefix|strip_suffix)$|SlicePartialEq<[^>]*>>::(equal|not_equal)$)')
+    bad = []
+    n = 0
+    for gp, fn in F.fns.items():
+        if fn.crate != 'quandary' or '::tests::' in gp or gp.startswith(('name::', '<name::')) or '<impl name::' in gp:
+            continue
+        # the compression scan compares one LABEL of the name being written with one label already in the message,
+        # octet for octet in the case-preserving mode (that is the mode's definition) -- label-aligned by construction
+        if gp.startswith("message::writer::Writer::<'a>::write_compressed_unhinted_name"):
+            continue
+        for b, t in fn.calls():
+            cn = callee_name(t)
+            if not cmp_rx.search(cn) or 'name::' in cn:
+                continue
+            n += 1
+            for a in t['args'][:2]:
+                if not is_place(a):
+                    continue
+                ty = a['pl'].get('ty') or fn.local_ty(a['pl']['l'])
+                if 'u8' not in ty:
+                    continue
+                srcs = [x for x in slice_of(fn, a, through_calls=True).call_names() if x in NAME_OCTET_SOURCES]
+                if srcs:
+                    bad.append('%s (%s): %s on %s' % (gp, fn.where(b), paths.short(cn), sorted(set(paths.short(x) for x in srcs))))
+                    break
+    R.require(not bad, rule, 'name|no-raw-octet-comparison-outside-name-module', '', 'none of the %d equality / ordering / prefix tests outside src/name has an operand derived from a name\'s wire octets' % n,
+              'a domain name is compared as raw octets outside the name module: %s -- names differing only in ASCII case (or an octet run that is not label-aligned) are classified wrongly' % bad)
+    return n
